@@ -59,6 +59,18 @@ CLAIMED = {
          "a missing number value is tolerated; from_xml analysed for 0/1 child elements, the unbounded clause rests on checks.children + constructors.",
     technique="contract-based deductive verification: VCs from the real AST by symbolic execution, regular-language inclusion in z3's sequence theory, z3",
     design="4 C13"),
+ "C03": dict(
+    category="proof",
+    text="Deductive: for every concrete message class (0 and 1 children; thorough 2) and every part class, a valid instance is built by the real "
+         "constructors from arbitrary attribute values; to_xml, from_xml (element level) and to_string/from_string (byte level, through the assumed "
+         "xml.etree round-trip contract) are executed symbolically and the result is proved to be of the same kind with every attribute equal to its "
+         "wire rendering, text normalised (empty == absent), same children in order, and the second serialisation identical to the first; a reordered / "
+         "indented foreign spelling of the same element is proved to parse to the same message; the registry is proved to contain every kind the "
+         "library can emit under pairwise distinct tags equal to the protocol's wire names.",
+    note="ASSUMED and sampled natively each run: xml.etree round trip (bounded conformance sample, falsification = exit 3). Trusted: PyVC + encoding; "
+         "str.strip contract; any number of children rests on the per-part round trip and the pointwise child maps; attribute domain None/str/int.",
+    technique="contract-based deductive verification: VCs from the real AST by symbolic execution, z3; external XML library behind an assumed, sampled contract",
+    design="4 C03"),
 }
 
 NOT_YET = "check not built yet (work in progress)"
